@@ -46,6 +46,16 @@ def sources(rng, tier):
     for _ in range(n):
         body = ''.join('  %s: %s;\n' % (rng.choice(['color', 'width', 'top', 'content']), rng.choice(vals)) for _ in range(rng.randrange(1, 4)))
         out.append(('values', '@v: q;\n.m(@a) when (@a > 1) { margin: @a; }\n.x-@{v} {\n%s  .m(2);\n  .m(0);\n  &:hover { %s }\n}\n' % (body, 'top: 0;')))
+    # a plain rule used as mixin (block fall-back) followed by a parametric mixin whose body nests rules with `&`
+    for _ in range(max(4, n // 4)):
+        plain = rng.choice(['.bordered', '.pl-1', '.box'])
+        mix = rng.choice(['.hoverable', '.mx', '.deco'])
+        first = rng.choice(['%s();' % plain, '%s;' % plain])
+        calls = [first, '%s(red);' % mix]
+        if rng.random() < 0.3:
+            calls.reverse()
+        out.append(('fallback-mixin', '%s { border: 1px solid; }\n%s(@c) { &:hover { color: @c; } .icon { top: 0; } & + & { left: 0; } }\n.button, .o .b2 {\n  %s\n  width: 1px;\n}\n.wrap { .inner { %s } }\n'
+                    % (plain, mix, '\n  '.join(calls), ' '.join(calls))))
     return out
 
 
